@@ -576,6 +576,10 @@ func (g *docGen) operation(kind, name string) string {
 		body = b.String()
 	} else if root == nil {
 		body = "  " + Pick(r, fieldNamePool) + "\n"
+		if t := g.s.T("Mutation"); kind == "mutation" && t != nil && len(t.Fields) > 0 && r.Chance(2, 3) {
+			// unbound, but a type of the conventional name exists: select from it
+			body = g.selection(t, r.Range(1, 3), "  ", newScope(), false)
+		}
 	} else {
 		body = g.selection(root, r.Range(1, 4), "  ", newScope(), false)
 	}
@@ -621,7 +625,7 @@ func GenDoc(r *Rng, s *GSchema, nfaults int) (string, []string) {
 		kind := "query"
 		switch r.Weighted([]int{6, 2, 1}) {
 		case 1:
-			if s.Mutation != "" || g.fault("mutation-without-root", 3) {
+			if s.Mutation != "" || (s.T("Mutation") != nil && r.Chance(1, 2)) || g.fault("mutation-without-root", 3) {
 				kind = "mutation"
 			}
 		case 2:
@@ -652,7 +656,59 @@ func GenDoc(r *Rng, s *GSchema, nfaults int) (string, []string) {
 	}
 	// document-level faults that are always applicable: spend what is left
 	for tries := 0; g.faults > 0 && tries < 6; tries++ {
-		switch r.Intn(6) {
+		switch r.Intn(7) {
+		case 6:
+			// the same response name twice on the root, both with wide
+			// sub-selections (>= 4 entries each) that disagree on what "x" is
+			noReq := func(f *GField) bool {
+				for _, a := range f.Args {
+					if a.Type.NonNull && a.Default == "" {
+						return false
+					}
+				}
+				return true
+			}
+			root := s.idx[s.Query]
+			done := false
+			for _, f := range root.Fields {
+				bt := s.idx[f.Type.Base()]
+				if bt == nil || (bt.Kind != "OBJECT" && bt.Kind != "INTERFACE") || !noReq(f) {
+					continue
+				}
+				var leaves []string
+				for _, lf := range bt.Fields {
+					if !isComposite(s.idx[lf.Type.Base()]) && noReq(lf) {
+						leaves = append(leaves, lf.Name)
+					}
+				}
+				if len(leaves) < 2 {
+					continue
+				}
+				w := r.Range(4, 6)
+				sub := func(x string, tag string) string {
+					out := "    x: " + x + "\n"
+					for i := 1; i < w; i++ {
+						if i%2 == 1 {
+							out += "    " + tag + strconv.Itoa(i) + ": " + leaves[i%len(leaves)] + "\n"
+						} else {
+							out += "    " + tag + strconv.Itoa(i) + ": __typename\n"
+						}
+					}
+					return out
+				}
+				a, b := leaves[0], leaves[1]
+				if r.Chance(1, 2) {
+					a, b = b, a
+				}
+				add := "  box: " + f.Name + " {\n" + sub(a, "p") + "  }\n  box: " + f.Name + " {\n" + sub(b, "q") + "  }\n"
+				ops[0] = strings.TrimSuffix(ops[0], "}\n") + add + "}\n"
+				done = true
+				break
+			}
+			if done {
+				g.faults--
+				g.noted = append(g.noted, "wide-sub-conflict")
+			}
 		case 4, 5:
 			// conflicts reached through nested fragment spreads: x is selected
 			// directly and, under other field names, inside 2-3 fragments that a
